@@ -4,3 +4,25 @@ import worldprop
 
 P = worldprop.WorldProp("C01", "p_c01", [('general', 200, 4000), ('twofactor', 100, 2000), ('remember', 100, 2000), ('oauth2', 100, 2000)], {10,13})
 run, replay = P.run, P.replay
+
+
+class C01F(worldprop.WorldProp):
+    """adds the remember flows of the fault-enumeration suite (a fabricated cookie while the token lookup fails)"""
+
+    def gen_fn(self, binp, prof, thorough):
+        import os
+        import vlib
+        if prof != "faults-remember":
+            n = dict(general=(200, 4000), twofactor=(100, 2000), remember=(100, 2000), oauth2=(100, 2000))[prof]
+            return worldprop.generate(binp, prof, n[1] if thorough else n[0], 60 if thorough else 30, vlib.seed(), "C01_" + prof)
+        path = os.path.join(vlib.CACHE, "faults_c01.jsonl")
+        rc, log = vlib.run_harness(["faults", "-seed", str(vlib.seed()), "-only", "remember", "-out", path], binp=binp, timeout=3000)
+        hs = vlib.read_jsonl(path) if rc == 0 and os.path.exists(path) else []
+        if os.path.exists(path):
+            os.remove(path)
+        return hs, ([] if rc == 0 else [log[-1500:]])
+
+
+P = C01F("C01", "p_c01", [("general", 200, 4000), ("twofactor", 100, 2000), ("remember", 100, 2000), ("oauth2", 100, 2000),
+                          ("faults-remember", 0, 0)], {10, 13})
+run, replay = P.run, P.replay
